@@ -1000,6 +1000,8 @@ class Sym:
 
     def _memset(self, inst, args, bc):
         dst, v, n = args[0], args[1], args[2]
+        if dst[0] == 'ld':
+            dst = ('ptr', ('mem', dst), 0)          # a pointer loaded from memory (m_ptr.get())
         if dst[0] == 'ptr' and dst[1][0] == 'alloca' and n[0] == 'ci' and v[0] == 'ci' and isinstance(dst[2], int):
             self.mem[dst[1][1]][('memset', dst[2], n[1])] = (n[1], ('ci', v[1], 8))
             return
